@@ -116,6 +116,8 @@ def job_configs(job, n_extra=0, short=False):
         c["hashseed"] = seeds[(k + 4) % len(seeds)]
         cfgs.append(c)
     cfgs.append(dict(cfgs[0]))          # exact repetition
+    for _ in range(job.feat.get("repeats", 0)):
+        cfgs.append(dict(cfgs[0]))      # rare run-to-run differences need many identical runs
     if job.feat.get("ps_tie"):
         cfgs.append(dict(cfgs[0]))      # address-dependent orders only show between identical runs
     return cfgs
@@ -152,8 +154,8 @@ def crash_class(rc, stderr):
         last = [l for l in stderr.strip().split("\n") if l and not l.startswith(" ")]
         name = last[-1].split(":")[0].strip() if last else "exception"
         name = name.split(".")[-1][:40] or "exception"
-        frames = re.findall(r'File "[^"]*whatshap/([^"]+)", line \d+, in (\w+)', stderr)
-        where = f"@{frames[-1][1]}" if frames else ""
+        frames = re.findall(r'File "[^"]*whatshap/([^"]+\.py)", line \d+, in (\w+)', stderr)
+        where = f"@{frames[-1][1]}" if frames else ""      # innermost python frame inside whatshap
         return name + where
     if rc in (1, 2):
         return None
@@ -226,6 +228,8 @@ def signature(job, label, kind, diff, dim, a, b):
             return "haplotag:sample-set-order"
         if dim == "repeat":
             return "haplotag:linked-read-set-order"
+    if job.sub == "phase" and dim == "repeat" and "--algorithm hapchat" in f.get("options", ""):
+        return "phase:hapchat-run-to-run"
     if diff == "header-order" and dim == "hashseed" and kind == "text":
         changed = [x for x, y in zip(a, b) if x != y and J.is_header(kind, x)]
         if changed and all(x.startswith("##INFO=") for x in changed):
@@ -244,7 +248,7 @@ def signature(job, label, kind, diff, dim, a, b):
 def scenario_plan(ctx, rng):
     """[(kind, seed, params)] for this tier"""
     plan = []
-    nd = ctx.n(1, 9)
+    nd = ctx.n(1, 6)
     for k in range(nd):
         ex = 4 if k == 0 else rng.choice([0, 1, 2, 3, 4])     # >= 3: second family; 4: plus an unrelated singleton
         plan.append(("diploid", rng.randrange(10 ** 9), {"extra_samples": ex, "second_trio": ex >= 3,
@@ -263,7 +267,7 @@ def scenario_plan(ctx, rng):
     plan.append(("ped-coverage", rng.randrange(10 ** 9), {"children": 1, "coverages": [4, 5, 7, 8, 16, 17],
                                                           "phase_coverages": [5, 7]}))
     plan.append(("ped-coverage", rng.randrange(10 ** 9), {"children": 2, "coverages": [5, 7, 9], "phase_coverages": [7]}))
-    for k in range(ctx.n(0, 4)):
+    for k in range(ctx.n(0, 3)):
         ch = rng.choice([1, 1, 2])
         plan.append(("ped-coverage", rng.randrange(10 ** 9),
                      {"children": ch, "reads": rng.choice([60, 110, 160]), "error_rate": rng.choice([0.01, 0.03, 0.06]),
